@@ -228,7 +228,7 @@ CHECKS['C10'] = (
     'ref/pubname refinement and siblings generators are proved; a cache layer (abbreviation tables shared between units, line-program objects, CallFrameInfo entries/_entry_cache) has its own '
     'invariant XInvT and refinement theorems (xanswer_refines, abbrev_table_shared, line_program_exact, cfi_cache_hit_eq_miss for arbitrary section contents). Exploration-only: section/segment/symbol '
     'access beyond the two name maps, stream positions of streams other than .debug_info, sibling-generator handles on the top DIE, CFI entries whose instructions overshoot their length followed by a '
-    'retry (excluded by CfiWF). Caches built by one complete scan on first use (_type_units_by_sig, RELR _cached_relocations) are covered by the generic machine Model/SigCache: lazy_cache_inv, lazy_cache_answers_independent_of_history, lazy_cache_failed_scan_publishes_nothing here, the instances with the library\'s scans and their correspondence in C04 (sig8_history_independent) and C08 (relr_cache_history_independent). Known finding lineprogram-define-file-header (get_entries mutates the header; excluded by LPWF). Invalid get_CU_at offsets poison the cache by design (out of scope).',
+    'retry (excluded by CfiWF). Caches built by one complete scan on first use (_type_units_by_sig, RELR _cached_relocations, GNUVerNeedSection._has_indexes, DynamicSegment._num_symbols / _symbol_name_map, SymbolTableSection._symbol_name_map) are covered by the generic machine Model/SigCache: lazy_cache_inv, lazy_cache_answers_independent_of_history, lazy_cache_failed_scan_publishes_nothing here, the instances with the library\'s scans and their correspondence in C04 (sig8_history_independent), C08 (relr_cache_history_independent), C15 (has_indexes_history_independent; this one exposed the defect has-indexes-cached-before-walk, fix 41cb572), C09 and C03. Known finding lineprogram-define-file-header (get_entries mutates the header; excluded by LPWF). Invalid get_CU_at offsets poison the cache by design (out of scope).',
     'DESIGN.md §6 C10')
 
 CHECKS['C11'] = (
